@@ -10,7 +10,7 @@ package f1
 //@ ghost var G20ret map[int]int
 //@
 //@ func CombineScenarios$1
-//@   props C20 C04 C07
+//@   props C20 C04 C07 C03
 //@   maypanic
 //@   requires t != nil
 //@   dyncall scenarios : userSetup
@@ -26,7 +26,7 @@ package f1
 //@   onpanic [prefix] G20set <= old(G20set) + len(scenarios)
 //@
 //@ func CombineScenarios$1$1
-//@   props C20 C04 C07
+//@   props C20 C04 C07 C03
 //@   maypanic
 //@   requires t != nil
 //@   dyncall run : userIter
